@@ -32,6 +32,8 @@ GROUP = {"swap": "operands", "drop": "operands", "gap": "operands", "dup": "oper
 def group_of(kind):
     if kind in GROUP:
         return GROUP[kind]
+    if kind.startswith("deco"):
+        return "deco"
     if kind.startswith("mem"):
         return "mem"
     if kind.startswith(("opt-", "extra", "rep-extra", "kz")):
@@ -68,7 +70,12 @@ def generate():
     for old in list((vlib.LEAN / "AsmjitVerif" / "Gen").glob("X86FormsChecked*.lean")) + [vlib.LEAN / "AsmjitVerif" / "Gen" / "X86Forms.lean"]:
         if old.exists():
             old.unlink()      # layout of the first rounds
-    return {"harness": h, "archs": archs, "db": db, "aliases": rows, "aliases_skipped": skipped, "sig": sig, "insts": insts,
+    form_deco = {}
+    for f in db["forms"]:
+        k = gen_x86forms.form_key(f)
+        a = form_deco.get(k, (False, False))
+        form_deco[k] = (a[0] or bool(f.get("er")), a[1] or bool(f.get("sae")))
+    return {"form_deco": form_deco, "insts_by_line": {i["line"]: i["form"] for i in insts}, "harness": h, "archs": archs, "db": db, "aliases": rows, "aliases_skipped": skipped, "sig": sig, "insts": insts,
             "proved_rows": (len(allow), len(excl))}
 
 
@@ -124,6 +131,22 @@ def inst_ops(g, rng, tier):
     for i in g["insts"]:
         ops.append(i["line"])
         info.append(("allow" if i["implemented"] else ("any" if i["allowed"] else "exclude"), "form", i["form"]))
+    # {er} x 4 rounding modes and {sae} on every implemented EVEX register-register instance, in the instance's mode:
+    # where no database form with these operands carries the decoration, validator and assembler must both refuse
+    evex = {i for i, r in enumerate(g["sig"]["insts"]) if r[0] & 0x800000}
+    deco_db = {}
+    for i in g["insts"]:
+        w = i["line"].split()
+        if i["implemented"] and i["kind"] in ("reg", "reg+k") and int(w[2]) in evex and not any(o.startswith("m:") for o in w[5:]):
+            er, sae = g["form_deco"].get(i["form"], (False, False))
+            a = deco_db.setdefault(i["line"], [False, False])
+            a[0] |= er
+            a[1] |= sae or er
+    for line, (er, sae) in deco_db.items():
+        w = line.split()
+        for opt, tag, okdb in ((0x40000, "er", er), (0x240000, "er", er), (0x440000, "er", er), (0x640000, "er", er), (0x80000, "sae", sae)):
+            ops.append(" ".join(w[:3] + ["%x" % (int(w[3], 16) | opt)] + w[4:]))
+            info.append(("any" if okdb else "deco", "deco-" + tag, g["insts_by_line"][line]))
     nmut = 2 if tier == "quick" else 10
     for i in g["insts"]:
         if not i["implemented"]:
@@ -310,6 +333,8 @@ def run(res):
                 if not key.endswith(":no-operands"):
                     # database forms: one key per instruction (exact); near-miss mutations: one key per mutated part
                     key += ":" + (id2name.get(int(w[2]), "?") if inf[1] == "form" else "mut-" + group_of(inf[1]))
+            elif cls.endswith("excluded-decoration"):
+                key = "agree:%s:%s:%s" % (cls, inf[1], id2name.get(int(ops[k].split()[2]), "?"))
             else:
                 key = "agree:%s:%s" % (cls, group_of(inf[1]))
         bad.setdefault(key, []).append(k)
